@@ -12,7 +12,10 @@ STD_TRUSTED = [
     "Lean 4.33.0 kernel; axioms per theorem as listed under coverage.theorems (subset of propext, Classical.choice, Quot.sound)",
     "hand-written Lean model of the anchored code (lean/CuriesVerif/Model), tied to /repo by this run's correspondence check",
     "the harness: generators, canonicalisation (harness/common.py), JSON codec (lean/CuriesVerif/Codec.lean)",
-    "CPython str/dict/sorted, pydantic construction of Record, PyTrie longest_prefix_item: modelled by contract, exercised on every case",
+    "CPython str/dict/sorted and pydantic construction of Record: modelled by contract, exercised on every case; pytrie's "
+    "StringTrie is modelled structurally (Model/Trie.lean, proved to refine the contract: C01_trie) and compared with the real "
+    "trie by C01; the csv dialect is modelled at byte level (Model/Csv.lean, csv_roundtrip) and compared with the real files by "
+    "C14 / C15 / C16",
 ]
 
 
